@@ -161,3 +161,77 @@ macro_rules! split_join {
         }
     };
 }
+
+// ---- 13.e' ArrayBuiltin::join alone: elements separated by exactly one separator each ---------------
+// (std's `str::split` searcher did not fit; the join half of the split/join round trip does.)
+fn join_spec<const K: usize>() {
+    use crate::arena::ArenaCow;
+    use crate::builtins::ArrayBuiltin;
+    use crate::runtime::Value;
+    let arena_store = Arena::new(1).unwrap();
+    let arena: &'static Arena = unsafe { &*(&arena_store as *const Arena) };
+    // K elements, each the empty string or one symbolic ASCII byte; separator of one symbolic byte
+    let mut bytes = [0u8; K];
+    let mut empty = [false; K];
+    let mut parts: Vec<Value<'static>, &'static Arena> = Vec::with_capacity_in(K, arena);
+    static EMPTY: &str = "";
+    let mut storage = [[0u8; 1]; K];
+    let mut i = 0;
+    while i < K {
+        let b: u8 = kani::any();
+        kani::assume(b < 0x80);
+        bytes[i] = b;
+        storage[i][0] = b;
+        empty[i] = kani::any();
+        i += 1;
+    }
+    let mut i = 0;
+    while i < K {
+        let s: &'static str = if empty[i] { EMPTY } else { unsafe { std::mem::transmute(std::str::from_utf8_unchecked(&storage[i])) } };
+        parts.push(Value::Str(ArenaCow::Borrowed(s)));
+        i += 1;
+    }
+    let sepb = [{ let b: u8 = kani::any(); kani::assume(b < 0x80); b }];
+    let sep = unsafe { std::str::from_utf8_unchecked(&sepb) };
+    let out = ArrayBuiltin::join(&parts, sep, arena);
+    // definition: e0 sep e1 sep ... e(K-1)
+    let mut want = [0u8; 16];
+    let mut w = 0;
+    let mut i = 0;
+    while i < K {
+        if i > 0 {
+            want[w] = sepb[0];
+            w += 1;
+        }
+        if !empty[i] {
+            want[w] = bytes[i];
+            w += 1;
+        }
+        i += 1;
+    }
+    let ob = out.as_bytes();
+    assert!(ob.len() == w, "join-length: one separator between every two elements, also around empty ones");
+    let mut i = 0;
+    while i < w {
+        assert!(ob[i] == want[i], "join-bytes: elements in order with the separator between them");
+        i += 1;
+    }
+    kani::cover!(K < 2 || (empty[0] && !empty[1]), "leading empty element");
+    kani::cover!(K < 2 || (!empty[0] && empty[K - 1]), "trailing empty element");
+    std::mem::forget(out);
+    std::mem::forget(parts);
+}
+macro_rules! join_spec {
+    ($name:ident, $k:literal, $unw:literal) => {
+        #[kani::proof]
+        #[kani::stub(crate::sys::unix::UnixVirtualMemory::reserve, crate::verif_common::reserve_960)]
+        #[kani::stub(crate::sys::unix::UnixVirtualMemory::commit, crate::verif_common::commit_ok)]
+        #[kani::stub(crate::sys::unix::UnixVirtualMemory::decommit, crate::verif_common::vm_nop)]
+        #[kani::stub(crate::sys::unix::UnixVirtualMemory::release, crate::verif_common::vm_nop)]
+        #[kani::stub(core::fmt::write, crate::verif_common::fmt_write)]
+        #[kani::stub(crate::arena::string::ArenaString::with_capacity_in, crate::arena::string::ArenaString::verif_with_capacity_in)]
+        #[kani::stub(crate::arena::string::ArenaString::push_str, crate::arena::string::ArenaString::verif_push_str)]
+        #[kani::unwind($unw)]
+        fn $name() { join_spec::<$k>() }
+    };
+}
